@@ -56,7 +56,8 @@ ASSUMPTIONS = [
 RULE = ("cases: the real Tuner.run() with StoreResultsCallback (or SimulatorCallback) writing results.csv.zip under a "
         "temporary SYNETUNE_FOLDER; several metrics, mode lists, strings, NaN, +-inf, trials without results, resumed "
         "trials with a new configuration, results_update_interval both 'never' and 'every result'; plus reference-style "
-        "calls of metric_name_mode; non-trivial iff at least 3 rows were stored and at least 2 trials reported")
+        "calls of metric_name_mode; scripted two-metric schedulers whose second metric is now and then a word; monitor only: "
+        "experiments run in two legs (run, Tuner.load, larger budget, run); non-trivial iff at least 3 rows were stored and at least 2 trials reported")
 
 
 def gen_resume_case(rng, tier):
